@@ -173,11 +173,23 @@ func (h *NFSProcedureHandler) handleFsinfo(body io.Reader, reply *RPCReply, auth
 		return nfsErrorWithPostOp(reply, NFSERR_IO), nil
 	}
 
-	binary.Write(&buf, binary.BigEndian, uint32(1048576))       // rtmax
-	binary.Write(&buf, binary.BigEndian, uint32(65536))         // rtpref
+	// Advertise what READ and WRITE really accept: both are bounded by the
+	// configured TransferSize (READ clamps to it, WRITE refuses more), and a
+	// WRITE call must also fit into one RPC record of DefaultMaxRecordSize
+	// together with its header, credential and arguments.
+	maxTransfer := uint32(DefaultMaxRecordSize - 4096)
+	if ts := h.server.handler.tuning.Load().TransferSize; ts > 0 && uint32(ts) < maxTransfer {
+		maxTransfer = uint32(ts)
+	}
+	prefTransfer := uint32(65536)
+	if prefTransfer > maxTransfer {
+		prefTransfer = maxTransfer
+	}
+	binary.Write(&buf, binary.BigEndian, maxTransfer)           // rtmax
+	binary.Write(&buf, binary.BigEndian, prefTransfer)          // rtpref
 	binary.Write(&buf, binary.BigEndian, uint32(4096))          // rtmult
-	binary.Write(&buf, binary.BigEndian, uint32(1048576))       // wtmax
-	binary.Write(&buf, binary.BigEndian, uint32(65536))         // wtpref
+	binary.Write(&buf, binary.BigEndian, maxTransfer)           // wtmax
+	binary.Write(&buf, binary.BigEndian, prefTransfer)          // wtpref
 	binary.Write(&buf, binary.BigEndian, uint32(4096))          // wtmult
 	binary.Write(&buf, binary.BigEndian, uint32(8192))          // dtpref (C1: uint32 not uint64)
 	binary.Write(&buf, binary.BigEndian, uint64(1099511627776)) // maxfilesize
